@@ -40,7 +40,7 @@ struct StreamState {
     // parked operations
     bool connect_parked = false, connect_hung = false; Handler0 connect_h; tcp::endpoint connect_ep; std::optional<WorkGuard> connect_w;
     bool read_parked = false; HandlerRW read_h; char* read_ptr = nullptr; size_t read_cap = 0; std::optional<WorkGuard> read_w;
-    bool write_parked = false; HandlerRW write_h; std::string write_data; bool write_delivered = false; std::optional<WorkGuard> write_w;
+    bool write_parked = false; HandlerRW write_h; std::string write_data; bool write_delivered = false; bool write_hung = false; std::optional<WorkGuard> write_w;
     std::string lw_data; size_t lw_written = 0; int64_t lw_start_ns = 0; size_t lw_seq_start = 0;   // logical (composed) write in progress: asio::async_write continues after short writes
     bool shutdown_parked = false, shutdown_hung = false; Handler0 shutdown_h; std::optional<WorkGuard> shutdown_w;
     int64_t connect_started_ns = -1, closed_ns = -1, first_error_ns = -1, connect_done_ns = -1; bool connect_failed = false; int host_index = -1; size_t connect_seq = 0; int64_t read_cancelled_ns = -1;   // first time a parked read was cancelled through its slot (timed read)
